@@ -58,7 +58,7 @@ pub fn number_regex_parser(config: &SmartCalcConfig, tokinizer: &mut Tokinizer, 
                         match capture.name("NOTATION") {
                             Some(notation) => {
                                 notation_match = Some(notation);
-                                num * match notation.as_str() {
+                                let multiplier = match notation.as_str() {
                                     "k" | "K" => 1_000.0,
                                     "M" => 1_000_000.0,
                                     "G" => 1_000_000_000.0,
@@ -67,7 +67,13 @@ pub fn number_regex_parser(config: &SmartCalcConfig, tokinizer: &mut Tokinizer, 
                                     "Z" => 1_000_000_000_000_000_000.0,
                                     "Y" => 1_000_000_000_000_000_000_000.0,
                                     _ => 1.0
+                                };
+
+                                /* A recognised magnitude suffix is part of the literal: it must not be left behind as a word */
+                                if multiplier != 1.0 {
+                                    parse_end = notation.end();
                                 }
+                                num * multiplier
                             },
                             _ => num
                         }
